@@ -188,12 +188,13 @@ def removeLiquidity (cx : NumCtx) (env : Env) (tok : String) (dec : Nat) (glpAmo
 def walletKey (tok : String) : String := tok.toUpper
 
 /-- `buy_glp(token, amount)` (after the repair: argument check, pure computation, wallet debit, then holding and log) -/
-def buyGlp (cx : NumCtx) (env : Env) (s : State) (tok : String) (dec : Nat) (amount : Rat) : Except Err Rat × State :=
+def buyGlp (cx : NumCtx) (env : Env) (s : State) (tok : String) (dec : Nat) (amount : Rat) (allowNeg : Bool := false) :
+    Except Err Rat × State :=
   if amount < 0 then (.error .demeter, s) else
   match addLiquidity cx env tok dec amount with
   | .error e => (.error e, s)
   | .ok (mint, _, _) =>
-    match Wallet.debit cx s.wallet (walletKey tok) amount false with
+    match Wallet.debit cx s.wallet (walletKey tok) amount allowNeg with
     | .error .insufficient => (.error .assertion, s)
     | .error .unknownToken => (.error .demeter, s)
     | .ok w =>
@@ -228,8 +229,10 @@ inductive Op
   | update
 deriving Repr
 
-def step (cx : NumCtx) (env : Env) (s : State) : Op → Except Err Rat × State
-  | .buy t d a => buyGlp cx env s t d a
+/-- `allowNeg` = `broker.allow_negative_balance` (default `False`, the setting the value theorems are about) -/
+def step (cx : NumCtx) (env : Env) (s : State) (op : Op) (allowNeg : Bool := false) : Except Err Rat × State :=
+  match op with
+  | .buy t d a => buyGlp cx env s t d a allowNeg
   | .sell t d g => sellGlp cx env s t d g
   | .update => update cx env s
 
